@@ -1084,3 +1084,460 @@ Proof. apply (tables_ok c). Qed.
 Lemma magic_http1_lit : resp_http1magic = lit_http1. Proof. reflexivity. Qed.
 Lemma magic_icy_lit : resp_icymagic = lit_icy. Proof. reflexivity. Qed.
 Lemma crlf_lit : resp_crlf = [13;10]. Proof. reflexivity. Qed.
+
+(* ---- ParseResponseStatus accepts exactly 3DIGIT delim with 100 <= value <= 599 ---- *)
+Lemma is_digit_dz c : is_digit c = true -> (0 <= Z.of_N c - 48 <= 9)%Z /\ Z.to_N (Z.of_N c - 48) = dval c.
+Proof. unfold is_digit, dval. lia. Qed.
+
+Lemma tok_int64_3 b : tok_int64 10 false 3 b =
+  match digit_run 10 (takeN 3 b) with [] => None | ds => Some (digits_value 10 ds 0, lenN ds) end.
+Proof. rewrite int64_10_run, int_of_run_small by lia. reflexivity. Qed.
+
+Lemma parse_status_ok_fwd relaxed d1 d2 d3 dl r :
+  is_digit d1 = true -> is_digit d2 = true -> is_digit d3 = true -> is_delim relaxed dl = true ->
+  100 <= 100 * dval d1 + 10 * dval d2 + dval d3 <= 599 ->
+  parse_status relaxed (d1 :: d2 :: d3 :: dl :: r) = PSok (100 * dval d1 + 10 * dval d2 + dval d3) r.
+Proof.
+  intros H1 H2 H3 Hd Hv. unfold parse_status. rewrite tok_int64_3.
+  cbn [takeN N.eqb N.pred Pos.pred_N Pos.pred_double].
+  cbn [digit_run]. rewrite !digit_of_10, H1, H2, H3.
+  cbn [lenN dropN N.succ Pos.succ N.eqb N.pred Pos.pred_N Pos.pred_double tok_skipOne].
+  rewrite delim_spec, Hd.
+  unfold digits_value. cbn [fold_left].
+  destruct (is_digit_dz _ H1) as [A1 A2]. destruct (is_digit_dz _ H2) as [B1 B2]. destruct (is_digit_dz _ H3) as [C1 C2].
+  match goal with |- context[Z.to_N ?v] =>
+    replace (Z.to_N v) with (100 * dval d1 + 10 * dval d2 + dval d3) by (unfold dval in *; lia) end.
+  replace (100 * dval d1 + 10 * dval d2 + dval d3 <=? 99) with false by lia.
+  replace (600 <=? 100 * dval d1 + 10 * dval d2 + dval d3) with false by lia.
+  reflexivity.
+Qed.
+
+Lemma parse_status_ok_inv relaxed b v r :
+  parse_status relaxed b = PSok v r ->
+  exists d1 d2 d3 dl, b = d1 :: d2 :: d3 :: dl :: r /\
+    is_digit d1 = true /\ is_digit d2 = true /\ is_digit d3 = true /\ is_delim relaxed dl = true /\
+    v = 100 * dval d1 + 10 * dval d2 + dval d3 /\ 100 <= v <= 599.
+Proof.
+  unfold parse_status. rewrite tok_int64_3.
+  destruct b as [|c1 [|c2 [|c3 b]]]; cbn [takeN N.eqb N.pred Pos.pred_N Pos.pred_double]; rewrite ?takeN_0;
+    cbn [digit_run]; rewrite ?digit_of_10.
+  - discriminate.
+  - destruct (is_digit c1) eqn:H1; cbn [lenN dropN N.succ Pos.succ N.eqb N.pred Pos.pred_N Pos.pred_double tok_skipOne];
+      discriminate.
+  - destruct (is_digit c1) eqn:H1; [|discriminate].
+    destruct (is_digit c2) eqn:H2;
+      cbn [lenN dropN N.succ Pos.succ N.eqb N.pred Pos.pred_N Pos.pred_double tok_skipOne]; [discriminate|].
+    destruct (is_digit_dz _ H1) as [A1 A2]. unfold digits_value; cbn [fold_left].
+    destruct (delim relaxed c2); [|discriminate].
+    destruct (Z.to_N (0 * 10 + (Z.of_N c1 - 48)) <=? 99) eqn:E; [discriminate|lia].
+  - destruct (is_digit c1) eqn:H1; [|discriminate].
+    destruct (is_digit_dz _ H1) as [A1 A2].
+    destruct (is_digit c2) eqn:H2.
+    2:{ cbn [lenN dropN N.succ Pos.succ N.eqb N.pred Pos.pred_N Pos.pred_double tok_skipOne].
+        unfold digits_value; cbn [fold_left].
+        destruct (delim relaxed c2); [|discriminate].
+        destruct (Z.to_N (0 * 10 + (Z.of_N c1 - 48)) <=? 99) eqn:E; [discriminate|lia]. }
+    destruct (is_digit_dz _ H2) as [B1 B2].
+    destruct (is_digit c3) eqn:H3.
+    2:{ cbn [lenN dropN N.succ Pos.succ N.eqb N.pred Pos.pred_N Pos.pred_double tok_skipOne].
+        unfold digits_value; cbn [fold_left].
+        destruct (delim relaxed c3); [|discriminate].
+        destruct (Z.to_N ((0 * 10 + (Z.of_N c1 - 48)) * 10 + (Z.of_N c2 - 48)) <=? 99) eqn:E; [discriminate|lia]. }
+    destruct (is_digit_dz _ H3) as [C1 C2].
+    cbn [lenN dropN N.succ Pos.succ N.eqb N.pred Pos.pred_N Pos.pred_double].
+    unfold digits_value; cbn [fold_left].
+    rewrite ?dropN_0. destruct b as [|dl r']; cbn [tok_skipOne]; [discriminate|].
+    destruct (delim relaxed dl) eqn:Hd; [|discriminate]. rewrite delim_spec in Hd.
+    match goal with |- context[Z.to_N ?V] =>
+      replace (Z.to_N V) with (100 * dval c1 + 10 * dval c2 + dval c3) by (unfold dval in *; lia) end.
+    remember (100 * dval c1 + 10 * dval c2 + dval c3) as V eqn:HV.
+    destruct (V <=? 99) eqn:E1; [discriminate|].
+    destruct (600 <=? V) eqn:E2; [discriminate|].
+    intros H. assert (Hv : v = V) by congruence. assert (Hr : r = r') by congruence. subst v r.
+    exists c1, c2, c3, dl. split; [reflexivity|]. repeat (split; [assumption|]). lia.
+Qed.
+
+(* ---- reason phrase and line terminator ---- *)
+Lemma span_app_all {A} (p : A -> bool) a b :
+  forallb p a = true -> match b with [] => True | y :: _ => p y = false end -> span p (a ++ b) = (a, b).
+Proof.
+  intros Ha Hb. induction a as [|x a IH]; cbn [app span].
+  - destruct b as [|y b]; [reflexivity|]. cbn [span]. rewrite Hb. reflexivity.
+  - cbn [forallb] in Ha. apply andb_true_iff in Ha as [H1 H2]. rewrite H1, (IH H2). reflexivity.
+Qed.
+
+Lemma forallb_eq {A} (f g : A -> bool) l : (forall c, f c = g c) -> forallb f l = forallb g l.
+Proof. intros H. induction l as [|x l IH]; cbn [forallb]; [reflexivity|]. rewrite H, IH. reflexivity. Qed.
+
+Lemma starts_with_split l p : starts_with l p = true -> l = p ++ dropN (lenN p) l.
+Proof.
+  revert l; induction p as [|y p IH]; intros l H.
+  - cbn [lenN app]. rewrite dropN_0. reflexivity.
+  - destruct l as [|c l]; cbn [starts_with] in H; [discriminate|].
+    apply andb_true_iff in H as [H1 H2]. apply N.eqb_eq in H1; subst y.
+    cbn [lenN app dropN]. destruct (N.succ (lenN p) =? 0) eqn:E; [apply N.eqb_eq in E; lia|].
+    rewrite N.pred_succ. f_equal. apply IH; exact H2.
+Qed.
+
+Lemma starts_with_app_self p r : starts_with (p ++ r) p = true.
+Proof. induction p as [|y p IH]; cbn [app starts_with]; [destruct r; reflexivity|]. rewrite N.eqb_refl, IH. reflexivity. Qed.
+
+Lemma eol_head_not_phrase relaxed eol rest : is_eol relaxed eol ->
+  match eol ++ rest with [] => True | y :: _ => resp_phraseChars y = false end.
+Proof. intros [->|[_ ->]]; reflexivity. Qed.
+
+Lemma skip_line_terminator_ok_fwd relaxed eol rest : is_eol relaxed eol ->
+  skip_line_terminator relaxed (eol ++ rest) = SkOk rest.
+Proof.
+  intros [->|[-> ->]].
+  - unfold skip_line_terminator. cbn [app tok_skipOne]. rewrite lf_spec. cbn [N.eqb Pos.eqb andb].
+    rewrite andb_false_r. rewrite skip_required_spec by exact resp_crlf_nonnil.
+    destruct rest; reflexivity.
+  - unfold skip_line_terminator. cbn [app tok_skipOne]. rewrite lf_spec. reflexivity.
+Qed.
+
+Lemma skip_line_terminator_ok_inv relaxed r rest :
+  skip_line_terminator relaxed r = SkOk rest -> exists eol, is_eol relaxed eol /\ r = eol ++ rest.
+Proof.
+  unfold skip_line_terminator. destruct (tok_skipOne cs_LF r) as [ok r1] eqn:E.
+  destruct (relaxed && ok) eqn:Er.
+  - apply andb_true_iff in Er as [-> ->]. intros H; inversion H; subst.
+    destruct r as [|c r]; cbn [tok_skipOne] in E; [discriminate|].
+    destruct (cs_LF c) eqn:Ec; [|discriminate]. rewrite lf_spec in Ec. apply N.eqb_eq in Ec; subst c.
+    inversion E; subst. exists [10]. split; [right; auto|reflexivity].
+  - rewrite skip_required_spec by exact resp_crlf_nonnil.
+    destruct (starts_with r resp_crlf) eqn:Es; [|destruct (starts_with resp_crlf r); discriminate].
+    intros H; inversion H; subst. exists [13;10]. split; [left; reflexivity|].
+    apply (starts_with_split _ _ Es).
+Qed.
+
+Lemma reason_and_eol_ok_fwd relaxed s reason eol rest buf :
+  forallb is_phrase reason = true -> is_eol relaxed eol -> lenN (reason ++ eol ++ rest) < npos ->
+  p_reason s = [] ->
+  reason_and_eol relaxed s (reason ++ eol ++ rest) buf = (1%Z, set_reason s reason, rest).
+Proof.
+  intros Hp He Hl Hr. unfold reason_and_eol.
+  rewrite tok_prefix_eq_spec. unfold prefix_spec. rewrite takeN_all by lia.
+  rewrite (forallb_eq _ _ _ phrase_spec) in Hp || rewrite <- (forallb_eq _ _ reason phrase_spec) in Hp.
+  rewrite (span_app_all _ _ _ Hp (eol_head_not_phrase _ _ rest He)). cbn [fst].
+  destruct reason as [|c reason].
+  - cbn [app]. rewrite (skip_line_terminator_ok_fwd _ _ _ He). rewrite set_reason_id by exact Hr. reflexivity.
+  - rewrite dropN_app_exact. rewrite (skip_line_terminator_ok_fwd _ _ _ He). reflexivity.
+Qed.
+
+Lemma reason_and_eol_ok_inv relaxed s t buf s1 rest :
+  reason_and_eol relaxed s t buf = (1%Z, s1, rest) -> p_reason s = [] ->
+  exists reason eol, t = reason ++ eol ++ rest /\ forallb is_phrase reason = true /\
+                     is_eol relaxed eol /\ s1 = set_reason s reason.
+Proof.
+  unfold reason_and_eol. intros H Hr.
+  destruct (tok_prefix resp_phraseChars npos t) as [[tk r]|] eqn:Ep.
+  - destruct (skip_line_terminator relaxed r) as [t2| |] eqn:Et; try discriminate.
+    inversion H; subst.
+    destruct (tok_prefix_sound _ _ _ _ _ Ep) as (Happ & _ & Hall & _).
+    destruct (skip_line_terminator_ok_inv _ _ _ Et) as (eol & He & ->).
+    exists tk, eol. rewrite (forallb_eq _ _ _ phrase_spec) in Hall. auto.
+  - destruct (skip_line_terminator relaxed t) as [t2| |] eqn:Et; try discriminate.
+    inversion H; subst.
+    destruct (skip_line_terminator_ok_inv _ _ _ Et) as (eol & He & ->).
+    exists [], eol. rewrite set_reason_id by exact Hr. auto.
+Qed.
+
+(* ---- the whole status line, from a fresh parser ---- *)
+Definition first0 : pst := set_stage pst0 SFirst.      (* state in which parse() first calls parseResponseFirstLine *)
+Definition accepted_state (proto : proto_t) (major minor status : N) (reason : bytes) : pst :=
+  {| p_stage := SFirst; p_proto := proto; p_major := major; p_minor := minor; p_completed := true;
+     p_status := status; p_reason := reason; p_mime := []; p_code := sc_none |}.
+
+Lemma tok_int64_1 t : tok_int64 10 false 1 t =
+  match t with
+  | m :: _ => if is_digit m then Some ((Z.of_N m - 48)%Z, 1) else None
+  | [] => None
+  end.
+Proof.
+  rewrite int64_10_run, int_of_run_small by lia. cbn [N.eqb].
+  destruct t as [|m r]; [reflexivity|].
+  cbn [takeN N.eqb N.pred Pos.pred_N]. rewrite takeN_0. cbn [digit_run]. rewrite digit_of_10.
+  destruct (is_digit m); reflexivity.
+Qed.
+
+Lemma tok_skipOne_inv set t t3 : tok_skipOne set t = (true, t3) -> exists c, t = c :: t3 /\ set c = true.
+Proof.
+  destruct t as [|c r]; cbn [tok_skipOne]; [discriminate|].
+  destruct (set c) eqn:E; [|discriminate]. intros H; inversion H; subst. eauto.
+Qed.
+
+Lemma status_and_reason_fresh_fwd relaxed s d1 d2 d3 dl2 reason eol rest buf :
+  p_completed s = false -> p_reason s = [] ->
+  is_digit d1 = true -> is_digit d2 = true -> is_digit d3 = true -> is_delim relaxed dl2 = true ->
+  forallb is_phrase reason = true -> is_eol relaxed eol ->
+  100 <= 100 * dval d1 + 10 * dval d2 + dval d3 <= 599 ->
+  lenN (reason ++ eol ++ rest) < npos ->
+  status_and_reason relaxed s (d1 :: d2 :: d3 :: dl2 :: reason ++ eol ++ rest) buf =
+  (1%Z, set_reason (set_completed (set_status s (100 * dval d1 + 10 * dval d2 + dval d3)) true) reason, rest).
+Proof.
+  intros Hc Hr H1 H2 H3 Hd Hp He Hv Hl. unfold status_and_reason. rewrite Hc.
+  rewrite (parse_status_ok_fwd _ _ _ _ _ _ H1 H2 H3 Hd Hv).
+  apply reason_and_eol_ok_fwd; try assumption.
+Qed.
+
+Lemma status_and_reason_fresh_inv relaxed s t buf s1 rest :
+  p_completed s = false -> p_reason s = [] ->
+  status_and_reason relaxed s t buf = (1%Z, s1, rest) ->
+  exists d1 d2 d3 dl2 reason eol,
+    t = d1 :: d2 :: d3 :: dl2 :: reason ++ eol ++ rest /\
+    is_digit d1 = true /\ is_digit d2 = true /\ is_digit d3 = true /\ is_delim relaxed dl2 = true /\
+    forallb is_phrase reason = true /\ is_eol relaxed eol /\
+    100 <= 100 * dval d1 + 10 * dval d2 + dval d3 <= 599 /\
+    s1 = set_reason (set_completed (set_status s (100 * dval d1 + 10 * dval d2 + dval d3)) true) reason.
+Proof.
+  intros Hc Hr. unfold status_and_reason. rewrite Hc.
+  destruct (parse_status relaxed t) as [v t1| |[v|]] eqn:Ep; try discriminate.
+  intros H.
+  destruct (parse_status_ok_inv _ _ _ _ Ep) as (d1 & d2 & d3 & dl & -> & H1 & H2 & H3 & Hd & -> & Hv).
+  destruct (reason_and_eol_ok_inv _ _ _ _ _ _ H ltac:(cbn; exact Hr)) as (reason & eol & -> & Hp & He & ->).
+  exists d1, d2, d3, dl, reason, eol. repeat (split; [first [reflexivity|assumption]|]). reflexivity.
+Qed.
+
+Theorem status_line_accepted_iff_grammar relaxed b s1 rest : lenN b < npos ->
+  (first_line relaxed first0 b = (1%Z, s1, rest) /\ p_stage s1 = SFirst) <->
+  (exists line proto major minor status reason,
+     b = line ++ rest /\ status_line relaxed line proto major minor status reason /\
+     s1 = accepted_state proto major minor status reason).
+Proof.
+  intros Hlen. split.
+  - (* the parser accepted: the input is a grammatical status line followed by rest *)
+    intros [H Hst]. unfold first_line in H. cbn [first0 p_proto set_stage pst0 proto_eqb negb] in H.
+    revert H. fl_magic_split b Eh Ei.
+    + rewrite tok_int64_1.
+      destruct (dropN (lenN resp_http1magic) b) as [|m t2] eqn:Et1; [discriminate|].
+      destruct (is_digit m) eqn:Hm; [|discriminate].
+      cbn [dropN N.eqb N.pred Pos.pred_N]. rewrite dropN_0.
+      destruct (tok_skipOne (delim relaxed) t2) as [[] t3] eqn:Ed; [|destruct t2; discriminate].
+      destruct (tok_skipOne_inv _ _ _ Ed) as (dl1 & -> & Hd1). rewrite delim_spec in Hd1.
+      intros H. apply status_and_reason_fresh_inv in H; [|reflexivity|reflexivity].
+      destruct H as (d1 & d2 & d3 & dl2 & reason & eol & -> & H1 & H2 & H3 & Hd2 & Hp & He & Hv & ->).
+      exists (lit_http1 ++ m :: dl1 :: d1 :: d2 :: d3 :: dl2 :: reason ++ eol), PHttp, 1, (dval m),
+             (100 * dval d1 + 10 * dval d2 + dval d3), reason.
+      split; [|split].
+      * rewrite (starts_with_split _ _ Eh), Et1. rewrite magic_http1_lit.
+        rewrite <- !app_assoc. cbn [app]. rewrite <- !app_assoc. reflexivity.
+      * apply SL_http; assumption.
+      * destruct (is_digit_dz _ Hm) as [_ Hz]. unfold accepted_state. cbn. rewrite Hz. reflexivity.
+    + intros H. apply status_and_reason_fresh_inv in H; [|reflexivity|reflexivity].
+      destruct H as (d1 & d2 & d3 & dl2 & reason & eol & Et & H1 & H2 & H3 & Hd2 & Hp & He & Hv & ->).
+      exists (lit_icy ++ d1 :: d2 :: d3 :: dl2 :: reason ++ eol), PIcy, 0, 0,
+             (100 * dval d1 + 10 * dval d2 + dval d3), reason.
+      split; [|split].
+      * rewrite (starts_with_split _ _ Ei), Et. rewrite magic_icy_lit.
+        rewrite <- !app_assoc. cbn [app]. rewrite <- !app_assoc. reflexivity.
+      * apply SL_icy; assumption.
+      * reflexivity.
+    + destruct ((lenN b <? lenN resp_http1magic) && starts_with resp_http1magic b); [discriminate|].
+      destruct ((lenN b <? lenN resp_icymagic) && starts_with resp_icymagic b); [discriminate|].
+      intros H; inversion H; subst. cbn in Hst. discriminate.
+  - (* a grammatical status line is accepted with exactly its fields *)
+    intros (line & proto & major & minor & status & reason & -> & Hg & ->).
+    destruct Hg as [m dl1 d1 d2 d3 dl2 reason eol Hm Hd1 H1 H2 H3 Hd2 Hp He Hv
+                   |d1 d2 d3 dl2 reason eol H1 H2 H3 Hd2 Hp He Hv].
+    + assert (Hl : lenN (reason ++ eol ++ rest) < npos).
+      { rewrite <- !app_assoc in Hlen. cbn [app] in Hlen. rewrite <- !app_assoc in Hlen.
+        rewrite lenN_app in Hlen. cbn [lenN] in Hlen. lia. }
+      split; [|reflexivity].
+      unfold first_line. cbn [first0 p_proto set_stage pst0 proto_eqb negb].
+      rewrite <- !app_assoc. cbn [app]. rewrite <- !app_assoc.
+      rewrite (tok_skip_nonempty _ _ http1magic_nonnil). rewrite <- magic_http1_lit.
+      rewrite starts_with_app_self, dropN_app_exact.
+      rewrite tok_int64_1, Hm. cbn [dropN N.eqb N.pred Pos.pred_N]. rewrite ?dropN_0.
+      cbn [tok_skipOne]. rewrite delim_spec, Hd1.
+      rewrite status_and_reason_fresh_fwd by (first [reflexivity|assumption]).
+      destruct (is_digit_dz _ Hm) as [_ Hz]. unfold accepted_state. cbn. rewrite Hz. reflexivity.
+    + assert (Hl : lenN (reason ++ eol ++ rest) < npos).
+      { rewrite <- !app_assoc in Hlen. cbn [app] in Hlen. rewrite <- !app_assoc in Hlen.
+        rewrite lenN_app in Hlen. cbn [lenN] in Hlen. lia. }
+      split; [|reflexivity].
+      rewrite <- !app_assoc. cbn [app]. rewrite <- !app_assoc.
+      pose proof (first_line_icy_head relaxed first0 lit_icy
+                    (d1 :: d2 :: d3 :: dl2 :: reason ++ eol ++ rest) eq_refl eq_refl) as Hh.
+      rewrite Hh. change (dropN (lenN resp_icymagic) lit_icy) with (@nil N). cbn [app].
+      rewrite status_and_reason_fresh_fwd by (first [reflexivity|assumption]).
+      reflexivity.
+Qed.
+
+(* ---- HTTP/0.9 gatewaying ---- *)
+(* b neither starts with a magic nor is a (possibly empty) proper prefix of one *)
+Definition no_magic_relation (b : bytes) : Prop :=
+  starts_with b lit_http1 = false /\ starts_with lit_http1 b = false /\
+  starts_with b lit_icy = false /\ starts_with lit_icy b = false.
+
+(* what the caller sees for a gatewayed HTTP/0.9 reply: HTTP/1.1 200 "Gatewaying" and the fake header block
+   "X-Transformed-From: HTTP/0.9\r\nMime-Version: 1.0\r\nExpires: -1\r\n\r\n" *)
+Definition gateway_fields : fields :=
+  {| f_proto := PHttp; f_major := 1; f_minor := 1; f_status := 200;
+     f_reason := [71;97;116;101;119;97;121;105;110;103];
+     f_mime := [88;45;84;114;97;110;115;102;111;114;109;101;100;45;70;114;111;109;58;32;72;84;84;80;47;48;46;57;13;10;
+                77;105;109;101;45;86;101;114;115;105;111;110;58;32;49;46;48;13;10;
+                69;120;112;105;114;101;115;58;32;45;49;13;10;13;10] |}.
+
+Lemma gateway_fields_ok : fields_of (gateway09 first0) = gateway_fields.
+Proof. reflexivity. Qed.
+
+Lemma first_line_gateway relaxed b : no_magic_relation b ->
+  first_line relaxed first0 b = (1%Z, gateway09 first0, b).
+Proof.
+  intros (A1 & A2 & B1 & B2). unfold first_line. cbn [first0 p_proto set_stage pst0 proto_eqb negb].
+  rewrite (tok_skip_nonempty _ b http1magic_nonnil), magic_http1_lit, A1.
+  rewrite (tok_skip_nonempty _ b icymagic_nonnil), magic_icy_lit, B1.
+  rewrite A2, B2, !andb_false_r. reflexivity.
+Qed.
+
+Theorem non_http_prefix_is_http09 relaxed limit b : no_magic_relation b ->
+  step relaxed limit pst0 b = Done gateway_fields b.
+Proof.
+  intros Hn. pose proof (first_line_gateway relaxed b Hn) as Hf.
+  destruct b as [|c b]; [destruct Hn as (_ & A2 & _); discriminate|].
+  rewrite step_obs. unfold parse. cbn [p_stage pst0 stage_eqb].
+  change (set_stage pst0 SFirst) with first0.
+  unfold parse_first. cbn [p_stage first0 set_stage stage_eqb]. rewrite Hf. reflexivity.
+Qed.
+
+(* conversely the parser gateways nothing else: an input related to a magic never takes the HTTP/0.9 branch *)
+Theorem http09_only_for_non_http_prefix relaxed b r s1 rest :
+  first_line relaxed first0 b = (r, s1, rest) -> p_stage s1 = SDone ->
+  no_magic_relation b /\ r = 1%Z /\ s1 = gateway09 first0 /\ rest = b.
+Proof.
+  unfold first_line. cbn [first0 p_proto set_stage pst0 proto_eqb negb].
+  fl_magic_split b Eh Ei.
+  - destruct (tok_int64 10 false 1 (dropN (lenN resp_http1magic) b)) as [[v k0]|].
+    + destruct (tok_skipOne (delim relaxed) (dropN k0 (dropN (lenN resp_http1magic) b))) as [[] t3].
+      * intros H Hs. apply status_and_reason_frame in H. cbn in H. destruct H as (F1 & _). congruence.
+      * destruct (dropN k0 (dropN (lenN resp_http1magic) b)); intros H Hs; inversion H; subst; discriminate.
+    + destruct (dropN (lenN resp_http1magic) b); intros H Hs; inversion H; subst; discriminate.
+  - intros H Hs. apply status_and_reason_frame in H. cbn in H. destruct H as (F1 & _). congruence.
+  - destruct ((lenN b <? lenN resp_http1magic) && starts_with resp_http1magic b) eqn:C1;
+      [intros H Hs; inversion H; subst; discriminate|].
+    destruct ((lenN b <? lenN resp_icymagic) && starts_with resp_icymagic b) eqn:C2;
+      [intros H Hs; inversion H; subst; discriminate|].
+    intros H _; inversion H; subst.
+    repeat split; try reflexivity; try assumption.
+    + apply (magic_decided _ _ Eh C1).
+    + apply (magic_decided _ _ Ei C2).
+Qed.
+
+(* ---- lifting to parse(): what an accepted reply looks like ---- *)
+Lemma grab_mime_frame limit s b ok s' k :
+  grab_mime limit s b = (ok, s', k) ->
+  p_proto s' = p_proto s /\ p_major s' = p_major s /\ p_minor s' = p_minor s /\
+  p_status s' = p_status s /\ p_reason s' = p_reason s /\ p_completed s' = p_completed s /\
+  (p_code s' = p_code s \/ p_code s' = sc_header_too_large) /\
+  (ok = true -> exists block, b = block ++ k).
+Proof.
+  unfold grab_mime.
+  destruct (proto_eqb (p_proto s) PHttp && (p_major s =? 1) || proto_eqb (p_proto s) PIcy).
+  2:{ intros H; inversion H; subst; cbn. repeat split; auto. intros _. exists []. reflexivity. }
+  destruct (headers_end b) as [e fold]. destruct (e =? 0).
+  - destruct (limit <=? lenN b + first_line_size s); intros H; inversion H; subst; cbn;
+      repeat split; auto; discriminate.
+  - destruct (limit <=? first_line_size s + e); intros H; inversion H; subst; cbn;
+      repeat split; auto; try discriminate.
+    intros _. exists (takeN e b). symmetry. apply takeN_dropN.
+Qed.
+
+Lemma parse_fresh_nonempty relaxed limit c b :
+  parse relaxed limit pst0 (c :: b) = parse_first relaxed limit first0 (c :: b).
+Proof. reflexivity. Qed.
+
+(* Every reply head that parse() accepts from a fresh parser is either the HTTP/0.9 gateway case,
+   or a grammatical status line followed by a header block and the unconsumed rest, and the
+   reported protocol/version/status/reason are the grammar's fields. *)
+Theorem accepted_reply_shape relaxed limit b f rest : lenN b < npos ->
+  step relaxed limit pst0 b = Done f rest ->
+  (no_magic_relation b /\ f = gateway_fields /\ rest = b) \/
+  (exists line proto major minor status reason block,
+     b = line ++ block ++ rest /\ status_line relaxed line proto major minor status reason /\
+     f_proto f = proto /\ f_major f = major /\ f_minor f = minor /\ f_status f = status /\
+     f_reason f = reason).
+Proof.
+  intros Hlen. rewrite step_obs. destruct b as [|c b]; [discriminate|].
+  rewrite parse_fresh_nonempty. unfold parse_first. cbn [p_stage first0 set_stage stage_eqb].
+  destruct (first_line relaxed first0 (c :: b)) as [[ret s1] b1] eqn:Ef.
+  pose proof (first_line_ret relaxed first0 (c :: b)) as Hret. rewrite Ef in Hret. cbn [fst] in Hret.
+  destruct Hret as [-> | [-> | ->]].
+  - cbn [Z.ltb Z.compare andb].
+    destruct (first_line_stage _ _ _ _ _ _ Ef) as [Hs|Hs].
+    + (* status-line path *)
+      cbn [p_stage first0 set_stage] in Hs.
+      destruct (proj1 (status_line_accepted_iff_grammar relaxed (c :: b) s1 b1 Hlen) (conj Ef Hs))
+        as (line & proto & major & minor & status & reason & Hb & Hg & ->).
+      cbn [accepted_state p_stage stage_eqb]. unfold parse_tail. cbn [p_stage set_stage stage_eqb].
+      destruct (grab_mime limit (set_stage (accepted_state proto major minor status reason) SMime) b1)
+        as [[ok s3] k] eqn:Eg.
+      destruct (grab_mime_frame _ _ _ _ _ _ Eg) as (G1 & G2 & G3 & G4 & G5 & _ & _ & G8).
+      destruct ok; cbn [obs].
+      * destruct (needs_more s3); cbn [negb]; [discriminate|].
+        intros H; inversion H; subst. right.
+        destruct (G8 eq_refl) as [block Hblock].
+        exists line, proto, major, minor, status, reason, block.
+        split; [rewrite Hb, Hblock; reflexivity|]. split; [exact Hg|].
+        unfold fields_of; cbn [f_proto f_major f_minor f_status f_reason].
+        rewrite G1, G2, G3, G4, G5. cbn. auto.
+      * destruct (needs_more s3); discriminate.
+    + (* HTTP/0.9 *)
+      destruct (http09_only_for_non_http_prefix _ _ _ _ _ Ef Hs) as (Hn & _ & -> & ->).
+      cbn [gateway09 p_stage set_stage stage_eqb]. unfold parse_tail. cbn [p_stage set_stage stage_eqb obs needs_more negb].
+      intros H; inversion H; subst. left. split; [exact Hn|]. split; reflexivity.
+  - cbn [Z.ltb Z.compare andb]. unfold parse_tail.
+    destruct (first_line_more _ _ _ _ _ Ef eq_refl) as (_ & R2 & _).
+    rewrite R2. cbn [p_stage first0 set_stage stage_eqb obs].
+    rewrite (needs_more_not_done s1) by (rewrite R2; discriminate). discriminate.
+  - cbn [Z.ltb Z.compare andb obs needs_more p_stage set_code set_stage stage_eqb negb]. discriminate.
+Qed.
+
+(* Conversely a grammatical status line is never rejected as a syntax error, and whatever the
+   header-block stage then decides (need more / done / too large), the parser reports the
+   grammar's protocol, version, status and reason. *)
+Theorem grammatical_status_line_accepted relaxed limit line tail proto major minor status reason ok s rest :
+  lenN (line ++ tail) < npos ->
+  status_line relaxed line proto major minor status reason ->
+  parse relaxed limit pst0 (line ++ tail) = (ok, s, rest) ->
+  p_proto s = proto /\ p_major s = major /\ p_minor s = minor /\ p_status s = status /\
+  p_reason s = reason /\ p_completed s = true /\ p_code s <> sc_invalid_header /\
+  (p_stage s = SMime \/ p_stage s = SDone).
+Proof.
+  intros Hlen Hg.
+  assert (Hf : first_line relaxed first0 (line ++ tail) =
+               (1%Z, accepted_state proto major minor status reason, tail)).
+  { apply (proj2 (status_line_accepted_iff_grammar relaxed (line ++ tail) _ tail Hlen)).
+    exists line, proto, major, minor, status, reason. auto. }
+  assert (Hne : exists c b, line ++ tail = c :: b) by (destruct Hg; cbn; eauto).
+  destruct Hne as (c & b & Hcb). rewrite Hcb in *. rewrite parse_fresh_nonempty.
+  unfold parse_first. cbn [p_stage first0 set_stage stage_eqb]. rewrite Hf.
+  cbn [Z.ltb Z.compare andb accepted_state p_stage stage_eqb]. unfold parse_tail. cbn [p_stage set_stage stage_eqb].
+  destruct (grab_mime limit (set_stage (accepted_state proto major minor status reason) SMime) tail)
+    as [[ok1 s3] k] eqn:Eg.
+  destruct (grab_mime_frame _ _ _ _ _ _ Eg) as (G1 & G2 & G3 & G4 & G5 & G6 & G7 & _).
+  destruct (grab_mime_stage _ _ _ _ _ _ Eg) as [S1 S2].
+  assert (Hst : p_stage s3 = SMime \/ p_stage s3 = SDone).
+  { destruct ok1; [right; apply S1; reflexivity|].
+    destruct (p_stage s3) eqn:E3; auto; destruct (S2 eq_refl ltac:(discriminate)) as [-> _]; discriminate. }
+  assert (Hcode : p_code s3 <> sc_invalid_header) by (destruct G7 as [->| ->]; discriminate).
+  destruct ok1; intros H; inversion H; subst; cbn in *; repeat split; auto.
+Qed.
+
+Theorem parse_status_ok_iff relaxed b v r :
+  parse_status relaxed b = PSok v r <->
+  exists d1 d2 d3 dl, b = d1 :: d2 :: d3 :: dl :: r /\
+    is_digit d1 = true /\ is_digit d2 = true /\ is_digit d3 = true /\ is_delim relaxed dl = true /\
+    v = 100 * dval d1 + 10 * dval d2 + dval d3 /\ 100 <= v <= 599.
+Proof.
+  split; [apply parse_status_ok_inv|].
+  intros (d1 & d2 & d3 & dl & -> & H1 & H2 & H3 & Hd & -> & Hv).
+  apply parse_status_ok_fwd; assumption.
+Qed.
+
+Theorem tables_and_magics_spec :
+  resp_http1magic = lit_http1 /\ resp_icymagic = lit_icy /\ resp_crlf = [13; 10] /\
+  (forall relaxed c, delim relaxed c = is_delim relaxed c) /\
+  (forall c, resp_phraseChars c = is_phrase c) /\
+  sc_invalid_header = 600 /\ sc_header_too_large = 601 /\ sc_none = 0.
+Proof. repeat split; try reflexivity; [apply delim_spec|apply phrase_spec]. Qed.
